@@ -178,9 +178,11 @@ pub struct BufCall {
 
 /// the last four paths end in an error for some documents only after earlier items were selected
 /// (unsupported arithmetic reached for a later element): nothing may stay appended
-pub const PATH_MENU: [&str; 16] = [
+pub const PATH_MENU: [&str; 18] = [
     "$", "$.*", "$[*]", "$.a", "$[0]", "$[last]", "$[0 to last]", "$[*]?(@ == 1)", "$.*?(exists(@.a))", "$[*].a", "$[*][*]", "$.a > 0",
     "$[*]?(@ == 1 || exists(@.a?(@ + 1)))", "$.*?(@ == 1 || exists(@.a?(@ * 2)))", "$[*]?(exists(@.a?(@ + 1)))", "$[*]?(@ == 1)?(@ + 1)",
+    // the root referred to from inside a filter that follows member steps
+    "$.a[*]?(@ == $.b)", "$.a?(@ == $.b || exists($.a))",
 ];
 
 pub fn buffer_calls(v: &RVal, o: &Opts) -> Vec<BufCall> {
